@@ -1,6 +1,7 @@
 package bcheck
 
 import (
+	"time"
 	"bytes"
 	"errors"
 	"fmt"
@@ -21,7 +22,7 @@ import (
 func init() {
 	Registry["C07"] = &Check{
 		Scenarios: c07Scenarios,
-		Rule: "schedules: W in {2,3} writer threads, 1-2 messages each with sizes from {200 B, 2 KiB, 5 KiB} (below/above the 1 KiB pooled serialisation buffer and the 4 KiB bufio buffer) written to one diam.Conn through Message.WriteTo, Conn.Write with caller-serialised bytes and Message.WriteToStreamWithRetry (rotating per writer and message) over an in-memory transport whose Write stalls between two pieces; every schedule up to the preemption bound (W=2: bound 2 quick / unbounded thorough; W=3: bound 2 / 3), happens-before state caching. faults: every sequence of write outcomes (bytes accepted k in {0,1,n/2,n-1,n} x {temporary, permanent, nil}) of length <= retries+1 for retries 0..3 against writeRetry (io.Writer) and writeStreamRetry (MultistreamWriter), and through a diam.Conn over a faulting transport. sizes: every message size 32..8300 (multiples of four) through WriteTo / Conn.Write / WriteToWithRetry on a fault-free connection: the transport holds exactly the message as soon as the write has returned.",
+		Rule: "schedules: W in {2,3} writer threads, 1-2 messages each with sizes from {200 B, 2 KiB, 5 KiB} (below/above the 1 KiB pooled serialisation buffer and the 4 KiB bufio buffer) written to one diam.Conn through Message.WriteTo, Conn.Write with caller-serialised bytes and Message.WriteToStreamWithRetry (rotating per writer and message) over an in-memory transport whose Write stalls between two pieces; every schedule up to the preemption bound (W=2: bound 2 quick / unbounded thorough; W=3: bound 2 / 3), happens-before state caching. faults: every sequence of write outcomes (bytes accepted k in {0,1,n/2,n-1,n} x {temporary, permanent, nil}) of length <= retries+1 for retries 0..3 against writeRetry (io.Writer) and writeStreamRetry (MultistreamWriter), and through a diam.Conn over a faulting transport. close-during-write: one writer (200 / 4096 / 5120 bytes) whose transport write stalls half way and an application goroutine closing the connection at every instant (preemption bound 3): the transport never receives more than a prefix of the message. sizes: every message size 32..8300 (multiples of four) through WriteTo / Conn.Write / WriteToWithRetry on a fault-free connection: the transport holds exactly the message as soon as the write has returned.",
 		Assume: []string{"data-race freedom between visible operations (audited separately with -race)", "the source rewriter and shims preserve Go semantics (shim unit tests)"},
 		QuickBudget: 100, ThoroughBudget: 1500,
 	}
@@ -73,6 +74,9 @@ func c07Scenarios(tier string) []*Scenario {
 	out = append(out, &Scenario{Name: "faults/writeStreamRetry", Seq: func(r *SeqResult) { c07Faults(r, true) }})
 	out = append(out, &Scenario{Name: "faults/through-conn", Seq: c07ConnFaults})
 	out = append(out, &Scenario{Name: "sizes/single-writer", Seq: c07Sizes})
+	for _, size := range []int{200, 4096, 5120} {
+		out = append(out, c07CloseDuringWrite(size, 3))
+	}
 	return out
 }
 
@@ -489,4 +493,52 @@ func c07Sizes(r *SeqResult) {
 			}
 		}
 	}
+}
+
+// c07CloseDuringWrite: one writer whose transport write stalls half way, and an application
+// goroutine that closes the connection at any instant. Whatever reaches the transport is a prefix
+// of the one message - never more than one copy of any of its bytes.
+var c07cw struct {
+	conn *vnet.Conn
+	want []byte
+	err  error
+	done bool
+}
+
+func c07CloseDuringWrite(size int, bound int) *Scenario {
+	body := func() {
+		conn := vnet.NewConn("S")
+		conn.Pieces = 2
+		c07cw.conn, c07cw.done, c07cw.err = conn, false, nil
+		c, err := diam.NewConn(conn, "peer", diam.NewServeMux(), dict.Default)
+		if err != nil {
+			panic(err)
+		}
+		m := c07msg(0, 0, size)
+		c07cw.want, _ = m.Serialize()
+		vs.GoNamed("writer", false, func() {
+			_, c07cw.err = m.WriteTo(c)
+			c07cw.done = true
+		})
+		vs.GoNamed("closer", true, func() { c.Close() })
+	}
+	check := func(s *vs.Sched) string {
+		var v []string
+		out := c07cw.conn.Out
+		if len(out) > len(c07cw.want) || !bytes.Equal(out, c07cw.want[:len(out)]) {
+			v = append(v, fmt.Sprintf("a %d-byte message written once while the connection was being closed: the transport received %d bytes that are not a prefix of the message (bytes of it were sent twice)", len(c07cw.want), len(out)))
+		}
+		if !c07cw.done {
+			v = append(v, "the write never returned")
+		}
+		if !c07cw.conn.Closed {
+			v = append(v, "Close did not close the transport")
+		}
+		for _, p := range s.Panics() {
+			v = append(v, "panic: "+p)
+		}
+		return strings.Join(v, " | ")
+	}
+	return &Scenario{Name: fmt.Sprintf("close-during-write/%d-bytes", size), Body: body, Check: check, Bound: bound, Horizon: 5 * time.Second,
+		Outcome: func(s *vs.Sched) string { return fmt.Sprint(len(c07cw.conn.Out), c07cw.err != nil) }}
 }
